@@ -1,6 +1,47 @@
 import PgFdr.Json
+import PgFdr.Model.C06
 namespace PgFdr.Driver
 open Lean PgFdr
+
+/-- `"inf"` or `[num,den]` -/
+def jcutoff (j : Json) : R (Option Rat) :=
+  match j with
+  | .str "inf" => .ok none
+  | _ => do pure (some (← jrat j))
+
+def ofRow (r : C06.Row) : Json :=
+  obj [("proteinIds", .str r.proteinIds), ("majorityProteinIds", .str r.majorityProteinIds),
+       ("peptideCountsUnique", .str r.peptideCountsUnique), ("bestPeptide", .str r.bestPeptide),
+       ("numberOfProteins", ofNat r.numberOfProteins), ("qValue", ofRat r.qValue), ("score", ofRat r.score),
+       ("reverse", .str r.reverse), ("potentialContaminant", .str r.potentialContaminant)]
+
+/-- `{"op":"report","groups":[[ids…]…],"infos":[[[pep,peptide,[ids…]]…]…],"scores":[…],"qvals":[…],
+     "cutoff":"inf"|[num,den],"keepAll":bool}` → `{"rows":[{nine base fields}…]}` or `{"err":…}` -/
+def handleReport (j : Json) : R Json := do
+  let groups ← jgroups (← jget j "groups")
+  let infos ← jlist (jlist jevidence) (← jget j "infos")
+  let scores ← jlist jrat (← jget j "scores")
+  let qvals ← jlist jrat (← jget j "qvals")
+  let cutoff ← jcutoff (← jget j "cutoff")
+  let keepAll ← jbool (← jget j "keepAll")
+  match C06.fromProteinGroups groups infos scores qvals cutoff keepAll with
+  | .error e => pure (ofErr e)
+  | .ok rows => pure (obj [("rows", ofList (fun d => ofRow (C06.render d)) rows)])
+
+/-- `{"op":"report_one","group":[ids…],"info":[…],"score":…,"qval":…,"cutoff":…,"keepAll":…}` →
+    `{"row": {…} | null}` or `{"err":…}` (`from_protein_group` on its own) -/
+def handleReportOne (j : Json) : R Json := do
+  let group ← jstrs (← jget j "group")
+  let info ← jlist jevidence (← jget j "info")
+  let score ← jrat (← jget j "score")
+  let qval ← jrat (← jget j "qval")
+  let cutoff ← jcutoff (← jget j "cutoff")
+  let keepAll ← jbool (← jget j "keepAll")
+  match C06.fromProteinGroup group info qval score cutoff keepAll with
+  | .error e => pure (ofErr e)
+  | .ok none => pure (obj [("row", .null)])
+  | .ok (some d) => pure (obj [("row", ofRow (C06.render d))])
+
 /-- protocol handlers of property C06: (op name, handler) -/
-def handlersC06 : List (String × (Json → R Json)) := []
+def handlersC06 : List (String × (Json → R Json)) := [("report", handleReport), ("report_one", handleReportOne)]
 end PgFdr.Driver
